@@ -341,3 +341,61 @@ func c03FsListFacts(l *lean) {
 	}
 	l.def("fsListCallback", "List String", c03StrList(facts), facts)
 }
+
+// external secret store backend: how each SPI method hands the key name to the generated client, and the path formats of
+// the generated request builders that take a key
+func c03ExternalFacts(l *lean) {
+	fset, f := parseFile("crypto/storage/external/client.go")
+	var uses []string
+	for _, m := range []string{"GetPrivateKey", "PrivateKeyExists", "SavePrivateKey", "DeletePrivateKey"} {
+		fd := c03Method(f, "APIClient", m)
+		if fd == nil {
+			uses = append(uses, m+":MISSING")
+			continue
+		}
+		ast.Inspect(fd.Body, func(n ast.Node) bool {
+			if call, ok := n.(*ast.CallExpr); ok {
+				fn := exprString(call.Fun)
+				if strings.HasPrefix(fn, "c.httpClient.") && len(call.Args) >= 2 {
+					uses = append(uses, m+":"+strings.TrimPrefix(fn, "c.httpClient.")+":"+c03Src(fset, call.Args[1]))
+				}
+			}
+			return true
+		})
+	}
+	l.def("externalNameUses", "List String", c03StrList(uses), uses)
+	fset2, g := parseFile("crypto/storage/external/generated.go")
+	var paths []string
+	for _, d := range g.Decls {
+		fd, ok := d.(*ast.FuncDecl)
+		if !ok || fd.Recv != nil || !strings.HasPrefix(fd.Name.Name, "New") || !strings.Contains(fd.Name.Name, "Request") {
+			continue
+		}
+		ast.Inspect(fd.Body, func(n ast.Node) bool {
+			as, ok := n.(*ast.AssignStmt)
+			if !ok || len(as.Lhs) != 1 || len(as.Rhs) != 1 {
+				return true
+			}
+			switch exprString(as.Lhs[0]) {
+			case "operationPath":
+				if call, ok := as.Rhs[0].(*ast.CallExpr); ok && exprString(call.Fun) == "fmt.Sprintf" {
+					paths = append(paths, fd.Name.Name+":"+c03Src(fset2, call))
+				}
+			case "pathParam0, err":
+			}
+			return true
+		})
+		ast.Inspect(fd.Body, func(n ast.Node) bool {
+			if call, ok := n.(*ast.CallExpr); ok && exprString(call.Fun) == "runtime.StyleParamWithLocation" {
+				var args []string
+				for _, a := range call.Args {
+					args = append(args, c03Src(fset2, a))
+				}
+				paths = append(paths, fd.Name.Name+":style("+strings.Join(args, ",")+")")
+			}
+			return true
+		})
+	}
+	sort.Strings(paths)
+	l.def("externalRequestPaths", "List String", c03StrList(paths), paths)
+}
